@@ -627,6 +627,21 @@ namespace
       rd_closed_ = true;
     }
 
+    /// Abortive close: SO_LINGER 0, so that the peer's stack sends a RST at once.
+    void reset_socket()
+    {
+      asio::error_code ignored;
+      if (sock().is_open())
+      {
+        sock().set_option(asio::socket_base::linger(true, 0), ignored);
+        sock().close(ignored);
+      }
+      drain();
+      rd_pending_ = false;
+      wr_pending_ = false;
+      rd_closed_ = true;
+    }
+
     /// Polite close: (TLS: bounded close_notify), then close the socket.
     void close()
     {
@@ -1396,6 +1411,75 @@ namespace
   }
 
   ////////////////////////////////////////////////////////////////////////////
+  // Scenario 7: rstdisc
+  //   n peers, one after the other: the peer sends a request; while the request handler is running (it blocks the
+  //   server's only thread) the peer RESETS its connection (SO_LINGER 0), so the reset is in the server's socket but
+  //   has not been read; the handler then turns the peer away with disconnect() and no response.  Every connection must
+  //   still be signalled as disconnected and released.
+  //   RESULT scenario=rstdisc n=<n> connected=<n> disconnected=<n> handled=<n>
+  int scenario_rstdisc(arg_map const& args)
+  {
+    long long n(0);
+    std::string err;
+    if (!get_int(args, "n", n, err))
+      return fail(err);
+    std::atomic<int> connected(0), disconnected(0), handled(0);
+    std::atomic<bool> entered(false), reset_done(false);
+    ServerBox box;
+    if (!box.start([&](http_server_type& srv)
+        {
+          srv.request_received_event(
+            [&](http_connection::weak_pointer weak_ptr, http_request const&, std::string const&)
+          {
+            entered = true;
+            auto t0(clock_type::now());
+            while (!reset_done.load() && ms_since(t0) < 2000)
+              sleep_ms(2);
+            sleep_ms(60);       // the RST has reached the server's socket by now; nothing has read it
+            reset_done = false;
+            ++handled;
+            http_connection::shared_pointer connection(weak_ptr.lock());
+            if (connection)
+              connection->disconnect();
+          });
+          srv.socket_connected_event([&connected](http_connection::weak_pointer) { ++connected; });
+          srv.socket_disconnected_event([&disconnected](http_connection::weak_pointer) { ++disconnected; });
+        }, 1, err))
+      return fail("server: " + err);
+
+    int peer_errors(0);
+    for (long long i(0); i < n; ++i)
+    {
+      Peer peer;
+      entered = false;
+      if (!peer.connect(box.port(), true, 5000, err) ||
+          !peer.write_all("GET /bye HTTP/1.1\r\nHost: localhost\r\n\r\n", 2000))
+      { ++peer_errors; continue; }
+      auto t0(clock_type::now());
+      while (!entered.load() && ms_since(t0) < 3000)
+        sleep_ms(2);
+      peer.reset_socket();
+      reset_done = true;
+      t0 = clock_type::now();
+      while (handled.load() <= i - peer_errors && ms_since(t0) < 3000)
+        sleep_ms(2);
+    }
+    auto t0(clock_type::now());
+    while (ms_since(t0) < 2000 && disconnected.load() < connected.load())
+      sleep_ms(10);
+    int c(connected.load()), d(disconnected.load());
+    box.begin_shutdown();
+    box.finish(1500);
+
+    std::ostringstream os;
+    os << "RESULT scenario=rstdisc n=" << n << " connected=" << c << " disconnected=" << d
+       << " handled=" << handled.load() << " errors=" << peer_errors << tail_keys(box);
+    printf("%s\n", os.str().c_str());
+    fflush(stdout);
+    return 0;
+  }
+
+  ////////////////////////////////////////////////////////////////////////////
   // Scenario 6: twoshut
   //   n=<count> peers connect and send `GET /bye`; the request handler answers by calling disconnect() on the (idle)
   //   connection, so the library starts ending it (TLS: close_notify).  BEFORE the peers react, http_server::shutdown()
@@ -1639,6 +1723,8 @@ int main(int argc, char* argv[])
       return scenario_abrupt(args);
     if (scenario == "twoshut")
       return scenario_twoshut(args);
+    if (scenario == "rstdisc")
+      return scenario_rstdisc(args);
   }
   catch (std::exception const& e)
   {
